@@ -4,6 +4,7 @@ import (
 	"fmt"
 	"os"
 	"path/filepath"
+	"sync"
 )
 
 // Loader defines the interface for template loading
@@ -30,6 +31,27 @@ type FileSystemLoader struct {
 	defaultPaths []string
 	// Stores paths for each loaded template to avoid repeatedly searching for the file
 	templatePaths map[string]string
+	// Guards templatePaths: an engine may load templates from several goroutines
+	pathsMu sync.RWMutex
+}
+
+// knownPath returns the remembered file path of a template
+func (l *FileSystemLoader) knownPath(name string) (string, bool) {
+	l.pathsMu.RLock()
+	defer l.pathsMu.RUnlock()
+	filePath, ok := l.templatePaths[name]
+	return filePath, ok
+}
+
+// rememberPath records (or, with an empty path, forgets) where a template was found
+func (l *FileSystemLoader) rememberPath(name, filePath string) {
+	l.pathsMu.Lock()
+	defer l.pathsMu.Unlock()
+	if filePath == "" {
+		delete(l.templatePaths, name)
+	} else {
+		l.templatePaths[name] = filePath
+	}
 }
 
 // ArrayLoader loads templates from an in-memory array
@@ -69,7 +91,7 @@ func NewFileSystemLoader(paths []string) *FileSystemLoader {
 // Load loads a template from the file system
 func (l *FileSystemLoader) Load(name string) (string, error) {
 	// Check if we already know the location of this template
-	if filePath, ok := l.templatePaths[name]; ok {
+	if filePath, ok := l.knownPath(name); ok {
 		// Check if file still exists at this path
 		if _, err := os.Stat(filePath); err == nil {
 			// Read file content
@@ -81,7 +103,7 @@ func (l *FileSystemLoader) Load(name string) (string, error) {
 			return string(content), nil
 		}
 		// If file doesn't exist anymore, remove from cache and search again
-		delete(l.templatePaths, name)
+		l.rememberPath(name, "")
 	}
 
 	// Check each path for the template
@@ -96,7 +118,7 @@ func (l *FileSystemLoader) Load(name string) (string, error) {
 		// Check if file exists
 		if _, err := os.Stat(filePath); err == nil {
 			// Save the path for future lookups
-			l.templatePaths[name] = filePath
+			l.rememberPath(name, filePath)
 
 			// Read file content
 			content, err := os.ReadFile(filePath)
@@ -139,12 +161,12 @@ func (l *FileSystemLoader) SetSuffix(suffix string) {
 // GetModifiedTime returns the last modification time of a template file
 func (l *FileSystemLoader) GetModifiedTime(name string) (int64, error) {
 	// If we already know where this template is, check that path directly
-	if filePath, ok := l.templatePaths[name]; ok {
+	if filePath, ok := l.knownPath(name); ok {
 		info, err := os.Stat(filePath)
 		if err != nil {
 			// If file doesn't exist anymore, remove from cache
 			if os.IsNotExist(err) {
-				delete(l.templatePaths, name)
+				l.rememberPath(name, "")
 			}
 			return 0, err
 		}
@@ -165,7 +187,7 @@ func (l *FileSystemLoader) GetModifiedTime(name string) (int64, error) {
 		info, err := os.Stat(filePath)
 		if err == nil {
 			// Save the path for future lookups
-			l.templatePaths[name] = filePath
+			l.rememberPath(name, filePath)
 
 			return info.ModTime().Unix(), nil
 		}
